@@ -192,6 +192,39 @@ def check_packets():
     return n, viol, len(classes)
 
 
+def check_socket_level():
+    """bytes that actually reach the socket when the kernel accepts fewer bytes than offered (every placement of one or
+    two short send() answers): still exactly the reference packet"""
+    from mc import fragio as F
+    from rpyc.core.stream import SocketStream
+    viol = []
+    n = [0]
+    for size in (0, 1, 40, 3001, 63995, 64001, 130000):
+        for kind in ("pattern", "random"):
+            p = payload(size, kind)
+            for comp in (True, False):
+                want = R.frame(p, compress=comp)
+
+                def run(ch):
+                    wire = F.Wire()
+                    sock = F.FragSocket(F.Wire(), wire, ch)
+                    try:
+                        Channel(SocketStream(sock), compress=comp).send(p)
+                    except Exception as ex:     # noqa
+                        return ("raised", type(ex).__name__)
+                    return ("ok", bytes(wire.data))
+
+                def on_result(ch, obs):
+                    n[0] += 1
+                    if obs != ("ok", want) and len(viol) < 4:
+                        got = obs[1] if obs[0] == "ok" else b""
+                        viol.append(("socket-level-bytes-differ:size=%d:%s" % (size, "short" if len(got) < len(want) else "other"),
+                                     "size %d compress=%s short-send pattern %r: %d bytes on the wire, reference %d (%r)" % (
+                                         size, comp, [c for _, c, _ in ch.trace if c], len(got), len(want), obs[0])))
+                F.explore(run, 2 if size < 100 else 1, on_result=on_result)
+    return n[0], viol
+
+
 # ------------------------------------------------------------------ (iii) conversations
 class Box(object):
     """an object with everything the 20 handlers need"""
@@ -659,6 +692,7 @@ def replay(rep):
     env.silence_unraisable()
     part = rep.get("part")
     fn = {"values": lambda: check_values(rep.get("tier", "quick"))[:2], "packets": lambda: check_packets()[:2],
+          "socket-level": check_socket_level,
           "ref-drives-real": conversation_ref_drives_real, "real-drives-ref": conversation_real_drives_ref,
           "constants": constants}[part]
     a = fn()
@@ -691,6 +725,12 @@ def main(tier, replay_obj=None):
     res.parts["packets"] = {"packets": n, "classes": classes, "sizes": list(SIZES)}
     for sig, text in viol:
         res.violation(sig, text, {"part": "packets"})
+    n, viol = check_socket_level()
+    res.evaluations += n
+    res.distinct_count_extra += n
+    res.parts["socket-level"] = {"executions": n}
+    for sig, text in viol:
+        res.violation(sig, text, {"part": "socket-level"})
     for name, fn in (("constants", constants), ("ref-drives-real", conversation_ref_drives_real),
                      ("real-drives-ref", conversation_real_drives_ref)):
         try:
